@@ -176,6 +176,45 @@ def maximal_paths(succ, init):
     return out
 
 
+def cover_paths(succ, inits, rng):
+    """Paths from an initial node to a maximal node such that every transition of the graph is on at least one of them."""
+    pred = collections.defaultdict(list)
+    for a, bs in succ.items():
+        for b in bs:
+            pred[b].append(a)
+    depth, frontier = {i: 0 for i in inits}, list(inits)
+    while frontier:
+        nxt = []
+        for a in frontier:
+            for b in succ.get(a, ()):
+                if b not in depth:
+                    depth[b] = depth[a] + 1
+                    nxt.append(b)
+        frontier = nxt
+    covered = set()
+    paths = []
+    edges = [(a, b) for a, bs in succ.items() for b in bs]
+    rng.shuffle(edges)
+    edges.sort(key=lambda e: -depth[e[1]])
+    for a, b in edges:
+        if (a, b) in covered:
+            continue
+        back = [a]
+        while pred[back[-1]]:
+            ps = pred[back[-1]]
+            fresh = [q for q in ps if (q, back[-1]) not in covered]
+            back.append(rng.choice(fresh or ps))
+        back.reverse()
+        p = back + [b]
+        while succ.get(p[-1]):
+            cand = succ[p[-1]]
+            fresh = [c for c in cand if (p[-1], c) not in covered]
+            p.append(rng.choice(fresh or cand))
+        covered.update(zip(p, p[1:]))
+        paths.append(tuple(p))
+    return paths
+
+
 ROUTES = ['direct', 'direct', 'coro', 'thread']
 
 
@@ -213,7 +252,7 @@ def _replay_chunk(args):
     return bad, nontrivial, dict(by_route), sorted(devs), sample
 
 
-def graph_replay(name, cfgs, k, saves, classes, fx, known, seed, procs):
+def graph_replay(name, cfgs, k, saves, classes, fx, known, seed, procs, cover=False):
     tla, cfg = mc(name, cfgs, k, saves, classes, fx, known, check=False)
     t0 = time.time()
     with tlc.Workdir() as wd:
@@ -226,9 +265,13 @@ def graph_replay(name, cfgs, k, saves, classes, fx, known, seed, procs):
         t1 = time.time()
         labels, succ, inits = load_graph(dot + '.dot')
     t2 = time.time()
-    paths = []
-    for i in inits:
-        paths.extend(maximal_paths(succ, i))
+    if cover:
+        paths = cover_paths(succ, inits, random.Random(seed))
+    else:
+        paths = []
+        for i in inits:
+            paths.extend(maximal_paths(succ, i))
+    t3 = time.time()
     items = list(enumerate(paths))
     n = max(1, len(items) // (procs * 8))
     jobs = [(seed, items[i:i + n]) for i in range(0, len(items), n)]
@@ -247,7 +290,8 @@ def graph_replay(name, cfgs, k, saves, classes, fx, known, seed, procs):
     _G.clear()
     return {'name': name, 'states': len(labels), 'transitions': sum(len(v) for v in succ.values()), 'generated': res.generated,
             'paths': len(paths), 'bad': bad, 'nontrivial': nontrivial, 'by_route': dict(by_route), 'devs': devs, 'samples': samples[-2:],
-            'tlc_s': t1 - t0, 'parse_s': t2 - t1, 'replay_s': time.time() - t2, 'K': k, 'configurations': len(cfgs), 'classes': list(classes)}
+            'tlc_s': t1 - t0, 'parse_s': t2 - t1, 'paths_s': t3 - t2, 'replay_s': time.time() - t3,
+            'selection': 'every transition of the graph on at least one behaviour' if cover else 'every maximal behaviour', 'K': k, 'configurations': len(cfgs), 'classes': list(classes)}
 
 
 # ---- the check -----------------------------------------------------------------------------------------------
@@ -270,9 +314,11 @@ def run(tier, seed):
         mcs = [dict(name='MC_C17_K3', cfgs=full, k=3, saves=1, classes=ALL_CLASSES),
                dict(name='MC_C17_K2_S2', cfgs=full, k=2, saves=2, classes=ALL_CLASSES)]
         rps = [dict(name='MC_C17_dump_K2', cfgs=full, k=2, saves=1, classes=ALL_CLASSES),
-               dict(name='MC_C17_dump_K3_Wait', cfgs=configs([BASES[3], BASES[4]], ['kw']) + configs(BASES[:1], ['bad']), k=3, saves=1,
-                    classes=['Wait']),
-               dict(name='MC_C17_dump_K3_FinExc', cfgs=configs([BASES[5]], ['pos']), k=3, saves=1, classes=['Fin', 'Exc'])]
+               # three tasks: one seeded configuration with a persister per class family, every transition of the graph covered
+               dict(name='MC_C17_dump_K3_Wait', cfgs=configs(rng.sample(BASES[2:], 1), ['kw']) + configs(BASES[:1], ['bad']), k=3, saves=1,
+                    classes=['Wait'], cover=True),
+               dict(name='MC_C17_dump_K3_FinExc', cfgs=configs(rng.sample(BASES[2:], 1), ['pos']), k=3, saves=1, classes=['Fin', 'Exc'],
+                    cover=True)]
 
     violations = 0
     states = transitions = 0
@@ -282,7 +328,7 @@ def run(tier, seed):
         with tlc.Workdir() as wd:
             wd.write(m['name'] + '.tla', tla)
             wd.write(m['name'] + '.cfg', cfg)
-            res = tlc.run(wd, m['name'] + '.tla', m['name'] + '.cfg', timeout=3000, heap='24g')
+            res = tlc.run(wd, m['name'] + '.tla', m['name'] + '.cfg', timeout=3000, heap='12g')
         states += res.distinct
         transitions += res.generated
         mc_summ.append({'instance': m['name'], 'K': m['k'], 'saves': m['saves'], 'configurations': len(m['cfgs']), 'classes': m['classes'],
@@ -303,7 +349,7 @@ def run(tier, seed):
     samples, rp_summ = [], []
     by_route = collections.Counter()
     for r in rps:
-        g = graph_replay(r['name'], r['cfgs'], r['k'], r['saves'], r['classes'], fx, known, seed, procs)
+        g = graph_replay(r['name'], r['cfgs'], r['k'], r['saves'], r['classes'], fx, known, seed, procs, r.get('cover', False))
         replayed += g['paths']
         nontrivial += g['nontrivial']
         devs |= g['devs']
@@ -327,8 +373,8 @@ def run(tier, seed):
         'samples': samples or [{'note': 'no behaviour replayed'}], 'evaluations': replayed, 'distinct_nontrivial': nontrivial,
         'rule': 'a behaviour is one maximal path of a dumped TLC state graph: a configuration and <=K tasks from create/launch/continue/'
                 'unknown x persist x nowait x tag {None,t} x class, interleaved with runloop / resume / save(instance, tag) (<=1 save); '
-                'every maximal path of every dumped graph is replayed once on a seeded route (direct call or controller->'
-                'LoopCommunicator->launcher); non-trivial = at least one task constructed or recreated a process; behaviours are '
+                'every maximal path of the K=2 graphs (thorough: plus paths covering every transition of the K=3 graphs of two seeded '
+                'configurations) is replayed once on a seeded route (direct call or controller->LoopCommunicator->launcher); non-trivial = at least one task constructed or recreated a process; behaviours are '
                 'distinct paths',
         'exhaustive': True, 'model_checking': mc_summ, 'replay': rp_summ, 'replayed_by_route': dict(by_route),
         'fixes_modelled': fx, 'known_deviations': known, 'deviation_clauses_exercised': sorted(devs), 'unlisted_deviations': unlisted,
